@@ -29,6 +29,8 @@ package witness
 //@   ensures[C07] @public-only result.1 == nil ==> typeIs(result.0, "*witness.witness") && as(result.0, "*witness.witness").nbSecret == 0 && as(result.0, "*witness.witness").nbPublic == w.nbPublic && dynlen(as(result.0, "*witness.witness").vector) == int(w.nbPublic)
 
 //@ contract (*witness).WriteTo
-//@   props C08
+//@   props C08 C09
 //@   requires w != nil && knownVec(w.vector)
 //@   nopanic
+//   the reported count is the number of bytes written (two 4-byte counters, then the vector)
+//@   ensures[C09] @count err == nil ==> n == written(wr, 0) - old(written(wr, 0))
